@@ -262,7 +262,22 @@ func keyConflictAttempt(op Op) string {
 		}
 		return ""
 	}
-	return walk(op.F.R)
+	if s := walk(op.F.R); s != "" {
+		return s
+	}
+	var walkP func(ps []Param) string
+	walkP = func(ps []Param) string {
+		for _, p := range ps {
+			if strings.HasPrefix(p.Tag, "group:\",") {
+				return fmt.Sprintf("a value-group parameter without a name (%s)", p.Tag)
+			}
+			if s := walkP(p.Obj); s != "" {
+				return s
+			}
+		}
+		return ""
+	}
+	return walkP(op.F.P)
 }
 
 // sideFnOf finds the constructor spec with the given id among the functions
